@@ -634,7 +634,7 @@ def main(argv=None):
                 "distinct_nontrivial": int(len(nontrivial)),
                 "rule": reg.rule,
                 "samples": samples[:12] if samples else [],
-                "obligations": per_ob,
+                "sub_checks": per_ob,
                 "classes": classes,
                 "discarded_by_guard": discards,
                 "observed_maxima": {k: float("%.3g" % v) for k, v in stats.items()},
